@@ -105,13 +105,29 @@ Places(file, cli, unk) == {"main"} \cup (IF file.has /\ ~cli.has /\ unk = "none"
 NamePairs(o, file, cli) ==
   {<<f, c>> \in (1..o.names) \X (1..o.names) : (file.has \/ f = 1) /\ (cli.has \/ c = 1)}
 
+\* pair scenarios: the option in the file (its first value, written the usual way), ANOTHER option on the command
+\* line.  Options do not get in each other's way: the effective configuration is the one of the command line naming
+\* both, whichever order they are named in (defaults derived from another option - make-html, the source link
+\* template - are part of that reference).  One format per pair, all ordered pairs.
+FirstVal(o) == Val(<<1>>)
+UsualStyle(o, fmt) ==
+  IF fmt = "toml" THEN (CASE o.kind = "store" -> "string" [] o.kind = "append" -> "list" [] OTHER -> "native")
+  ELSE (CASE o.kind = "store" -> "quoted" [] o.kind = "append" -> "pylist" [] OTHER -> "plain")
+FormatOf(i, j) == <<"toml", "cfg", "ini">>[((i + j) % 3) + 1]
+
 VARIABLES s
 vars == <<s>>
 Scenario(i, fmt, via, file, fstyle, cli, spell, unk, place, np, tw) ==
   [opt |-> i, key |-> Options[i].key, kind |-> Options[i].kind, fmt |-> fmt, via |-> via, file |-> file,
-   fstyle |-> fstyle, cli |-> cli, spell |-> spell, unknown |-> unk, place |-> place, fname |-> np[1], cname |-> np[2], twice |-> tw]
+   fstyle |-> fstyle, cli |-> cli, spell |-> spell, unknown |-> unk, place |-> place, fname |-> np[1], cname |-> np[2], twice |-> tw,
+   comp |-> ""]                          \* comp: key of the companion option on the command line ("" = none)
 
-Init == \E i \in 1..Len(Options), fmt \in Formats, via \in Vias :
+PairInit == \E i \in 1..Len(Options), j \in 1..Len(Options) :
+              /\ i # j /\ FormatOf(i, j) \in Formats
+              /\ s = [Scenario(i, FormatOf(i, j), "default", FirstVal(Options[i]), UsualStyle(Options[i], FormatOf(i, j)),
+                               Absent, "none", "none", "main", <<1, 1>>, FALSE) EXCEPT !.comp = Options[j].key]
+Init == PairInit \/
+        \E i \in 1..Len(Options), fmt \in Formats, via \in Vias :
           \E file \in FileChoices(Options[i]), cli \in CliChoices(Options[i]) :
             \E fstyle \in FileStyles(Options[i], fmt, file), spell \in Spellings(Options[i], cli),
                unk \in Unknowns(Options[i], i, cli) :
